@@ -1,0 +1,11 @@
+//go:build verif
+
+// Contracts and ghost/spec functions for package parser, read by the /verif
+// condition generator (govc). Compiled only with -tags verif; adds no behaviour.
+package parser
+
+// C03 (1): parseLine ranges over a map of directive patterns and stops at the first
+// hit. The classification is deterministic only if no line can be claimed by two of
+// them. Domain: what parseLine actually receives - one line without newline, already
+// left-trimmed of blanks and tabs, and not blank.
+//@ directive[C03] pairwise-disjoint NewParser patterns and(lines, full(`[^ \t].*`), not(full(`\s*`)))
